@@ -193,7 +193,21 @@ def resume_all(ctx: Ctx) -> None:
                 if not ((isinstance(t.ops[0], ast.Is) and pol) or (isinstance(t.ops[0], ast.IsNot) and not pol)):
                     return False
                 ds = fl.rdefs(t.left.id, src)
-                return bool(ds) and all(d_.value is not None and any(isinstance(c_, ast.Constant) and c_.value == "target" for c_ in ast.walk(d_.value)) for d_ in ds)
+
+                def from_target_entry(d_):
+                    if d_.value is None:
+                        return False
+                    if any(isinstance(c_, ast.Constant) and c_.value == "target" for c_ in ast.walk(d_.value)):
+                        return True
+                    # a loop variable over a collection of such lookups
+                    if d_.kind == "for":
+                        for nm in [x for x in ast.walk(d_.value) if isinstance(x, ast.Name)]:
+                            for d2 in fl.rdefs(nm.id, d_.node):
+                                if d2.value is not None and any(isinstance(c_, ast.Constant) and c_.value == "target" for c_ in ast.walk(d2.value)):
+                                    return True
+                    return False
+
+                return bool(ds) and all(from_target_entry(d_) for d_ in ds)
 
             if any(_no_target(t, pol) for t, pol in facts):
                 continue
@@ -236,6 +250,15 @@ def resume_all(ctx: Ctx) -> None:
         t = bn.stmt.test
         txt = unparse(t, 200)
         is_none_all = isinstance(t, ast.Call) and isinstance(t.func, ast.Name) and t.func.id == "all" and "target" in subscript_keys(t) and "successors" in txt
+        # all(x is None for x in T) with T = [the outputs' "target" entries]
+        if not is_none_all and isinstance(t, ast.Call) and isinstance(t.func, ast.Name) and t.func.id == "all" and t.args and isinstance(t.args[0], (ast.GeneratorExp, ast.ListComp)):
+            ge = t.args[0]
+            el_none = isinstance(ge.elt, ast.Compare) and isinstance(ge.elt.ops[0], ast.Is) and isinstance(ge.elt.comparators[0], ast.Constant) and ge.elt.comparators[0].value is None
+            it_ = ge.generators[0].iter
+            if el_none and isinstance(it_, ast.Name) and not ge.generators[0].ifs:
+                for d_ in fl.rdefs(it_.id, bn.id):
+                    if d_.value is not None and "target" in subscript_keys(d_.value) and succ_derived(d_.value, d_.node):
+                        is_none_all = True
         is_empty = False
         pol_edge = "true"
         from ..astutil import nonempty_polarity
@@ -283,7 +306,12 @@ def resume_mark(ctx: Ctx) -> None:
         under = any(pol and isinstance(t, ast.Name) and t.id == "resume" for t, pol in facts)
         ctx.ob(ex, via if via is not None else st, under, "marks are written only when `resume` is truthy", sel="mark:under-resume")
         # value comes from already_computed
-        ok = isinstance(st.value, ast.Call) and ALREADY in repo.callee_quals(st.value, holder)
+        mv = st.value
+        if isinstance(mv, ast.Name):
+            ds_ = hfl.rdefs(mv.id, hnid)
+            if len(ds_) == 1 and ds_[0].kind == "assign" and ds_[0].value is not None:
+                mv = ds_[0].value
+        ok = isinstance(mv, ast.Call) and ALREADY in repo.callee_quals(mv, holder)
         ctx.ob(holder, st, ok, "the mark is the result of already_computed(<node>)", sel="mark:value")
         # receiver graph is a copy
         recv = st.targets[0].value
